@@ -53,7 +53,7 @@ func init() {
 			return lo
 		}
 		v := i.newInput(args[0].(string), "int", 64).(*Term)
-		if hi-lo < 256 {
+		if hi-lo >= 0 && hi-lo < 256 {
 			vals := make([]uint64, hi-lo+1)
 			for k := range vals {
 				vals[k] = uint64(int64(lo + k))
@@ -345,7 +345,7 @@ func init() {
 	// math/bits: concrete fast paths (the pure-Go bodies are used for symbolic)
 	reg("math/bits.Mul64", func(fr *frame, args []value) value {
 		if isSym(args[0]) || isSym(args[1]) {
-			panic(unsupported{"bits.Mul64 on symbolic values"})
+			return useBody{}
 		}
 		hi, lo := bits.Mul64(args[0].(uint64), args[1].(uint64))
 		return tuple{hi, lo}
